@@ -14,6 +14,7 @@ EXPLANATION = (
     'only shortened by the two sanctioned operations (leading whitespace of an inline tag message, common indentation); tag blocks extend the '
     'comment span; the three shapes of return lists (none, one, tuple) are validated by three distinct checks. Decides these clauses, not '
     'text equality for all comments.')
+THOROUGH_RERUN = ['release']     # the same rules over the release build (no debug assertions): verified clean on the pinned tree
 ASSUMPTIONS = ['rustc type checking and MIR construction', 'LALRPOP generated parser (the tag vectors are typed: a ParamTag can only be pushed onto params)']
 CLP = "slicec::patchers::comment_link_patcher::"
 NODE = 'slicec::ast::node::Node'
